@@ -10,6 +10,8 @@ import (
 	"path/filepath"
 	"sort"
 	"strings"
+	"sync"
+	"time"
 
 	comet "github.com/wizenheimer/comet"
 )
@@ -192,6 +194,91 @@ func snapshotDir(dir string) map[string][]byte {
 	return m
 }
 
+// flushRace: an explicit Flush while the background worker is in the middle of its own flush (held at
+// its first file creation by the hook handler), then a crash right after Flush returned.
+func flushRace(r *rand.Rand, base string, t *Trace) {
+	dir, img := base, base+"_img"
+	os.RemoveAll(dir)
+	os.RemoveAll(img)
+	defer os.RemoveAll(dir)
+	defer os.RemoveAll(img)
+	dim := 2 + r.Intn(2)
+	mkcfg := func(d string) *comet.StorageConfig {
+		cfg := comet.DefaultStorageConfig(d)
+		cfg.MemtableSizeLimit = 1 << 30
+		cfg.FlushThreshold = 1 // every add asks the background worker to flush whatever is frozen
+		cfg.CompactionInterval = time.Hour
+		cfg.CompactionThreshold = 1000
+		cfg.VectorIndexTemplate, _ = comet.NewFlatIndex(dim, comet.Euclidean)
+		cfg.TextIndexTemplate = comet.NewBM25SearchIndex()
+		return cfg
+	}
+	st, err := comet.OpenPersistentHybridIndex(mkcfg(dir))
+	if err != nil {
+		panic(err)
+	}
+	n := 3 + r.Intn(8)
+	for i := 1; i <= n; i++ {
+		st.AddWithID(uint32(i), histVec(r, dim, 1), fmt.Sprintf("doc number%d", i), nil)
+	}
+	workerIn := make(chan struct{})
+	release := make(chan struct{})
+	var once sync.Once
+	comet.VerifSetHandler(func(name string, args ...uint64) {
+		if name == "flush.created" {
+			first := false
+			once.Do(func() { first = true })
+			if first {
+				close(workerIn)
+				<-release
+			}
+		}
+	})
+	st.VerifRotate()                                                // documents 1..n are now in a frozen memtable
+	st.AddWithID(uint32(n+1), histVec(r, dim, 1), "later doc", nil) // wakes the worker (not covered by the Flush below)
+	held := true
+	select {
+	case <-workerIn:
+	case <-time.After(5 * time.Second):
+		held = false // the worker did not get there: the Flush below is then an ordinary one
+	}
+	fe := st.Flush()
+	fcode := errCodeStore(fe)
+	if fe != nil && fcode == 0 {
+		fcode = 14
+	}
+	image := snapshotDir(dir) // the process dies here
+	close(release)
+	comet.VerifSetHandler(nil)
+	st.Close()
+	os.MkdirAll(img, 0755)
+	for name, b := range image {
+		if name != "LOCK" {
+			os.WriteFile(filepath.Join(img, name), b, 0644)
+		}
+	}
+	found, alien := 0, 0
+	st2, e2 := comet.OpenPersistentHybridIndex(mkcfg(img))
+	searchErr := false
+	if e2 == nil {
+		res, e3 := st2.NewSearch().WithVector(make([]float32, dim)).WithK(1 << 20).Execute()
+		searchErr = e3 != nil
+		for _, x := range res {
+			switch {
+			case x.ID >= 1 && x.ID <= uint32(n):
+				found++
+			case x.ID != uint32(n+1):
+				alien++
+			}
+		}
+		st2.Close()
+	}
+	t.Emit(NewCase(1001).N(n).N(found).N(fcode).B(e2 != nil).B(searchErr).N(alien), "crash.flush_racing_background_flush")
+	if held {
+		t.Stat("crash.background_worker_held_mid_flush")
+	}
+}
+
 func genC10(r *rand.Rand, t *Trace, thorough bool) {
 	ncases := 14
 	perCase := 10
@@ -201,6 +288,10 @@ func genC10(r *rand.Rand, t *Trace, thorough bool) {
 	work := os.Getenv("VERIF_WORK")
 	if work == "" {
 		work = os.TempDir()
+	}
+	for it := 0; it < 3+ncases/6; it++ {
+		storeCaseCounter++
+		flushRace(r, filepath.Join(work, "stores", fmt.Sprintf("fr%d_%d", os.Getpid(), storeCaseCounter)), t)
 	}
 	for it := 0; it < ncases; it++ {
 		storeCaseCounter++
